@@ -10,7 +10,7 @@ from . import c01, c03
 
 PROP = "C06"
 PROPS_FILE = "theories/Props/C06.v"
-THEOREMS = ["c06_perm_verdict", "c06_rows_agree", "c06_updates_agree"]
+THEOREMS = ["c06_perm_verdict", "c06_rows_agree", "c06_updates_agree", "c06_edge_order_irrelevant"]
 GEN_FILES = []
 TRUSTED = ["Coq 8.16.1 kernel + vm_compute",
            "c06_perm_verdict and c06_rows_agree closed under the global context; c06_updates_agree (Coquelicot) depends on the standard library's axioms ClassicalDedekindReals.sig_not_dec, sig_forall_dec, FunctionalExtensionality.functional_extensionality_dep, Classical_Prop.classic",
